@@ -703,6 +703,9 @@ class FuncRun(ExprMixin, InstrMixin, CallMixin):
                 for p in fn['freevars']:
                     if p['name'] == fvname:
                         out.setdefault(fvname, (b.a, self.ty.elem(p['type'])))
+        if frame == self.top_frame:
+            for nm, (cid, et) in getattr(self, 'transitive_fv', {}).items():
+                out.setdefault(nm, (cid, et))
         for g, (cid, sort) in self.ghost_cells.items():
             out[g] = (cid, None)
         # a variable that was purely renamed since the contracts were written answers to its old name too
@@ -711,7 +714,76 @@ class FuncRun(ExprMixin, InstrMixin, CallMixin):
             if old_ not in out and new_ in out:
                 out[old_] = out[new_]
                 self.renamed_used.add('%s: %s -> %s' % (fn['name'].rsplit('/', 1)[-1], old_, new_))
+        self.loop_aliases(ctx, at_block, out)
         return out
+
+    def loop_aliases(self, ctx, at_block, out):
+        """a loop that changed FORM since the contracts were written (range over a slice <-> counted loop with an index)
+        keeps answering to the name its counter had: `rangeindex[#k]` of a loop that is now `for v := 0; ..; v++` is v-1
+        at the loop head (the index last processed) and v elsewhere; the index variable v of a loop that is now
+        `for v := range s` is (hidden counter)+1 at the head.  These are definitions of contract names, not assumptions:
+        the invariants written over them are checked as usual."""
+        from .baseline import load as load_baseline, loop_shapes
+        fn = ctx['fn']
+        base = load_baseline().get(fn['name'])
+        if not base or not base.get('loops'):
+            return
+        cache = self.__dict__.setdefault('_loopshapes', {})
+        cur = cache.get(fn['name'])
+        if cur is None:
+            cur = cache[fn['name']] = loop_shapes(fn)
+        bl = base['loops']
+        if len(bl) != len(cur) or all(b.get('kind') == c.get('kind') and b.get('ri') == c.get('ri') for b, c in zip(bl, cur)):
+            return
+        cfg = ctx['cfg']
+        frame = ctx['frame']
+        headers = sorted(cfg.loops, key=lambda h_: cfg.loop_no[h_])
+        if len(headers) != len(cur):
+            return
+        derived = {}
+        was_range = []
+        for n, (b, c) in enumerate(zip(bl, cur)):
+            h = headers[n]
+            inside = at_block is not None and at_block in cfg.loops[h]
+            if b.get('ri'):
+                nm = 'rangeindex#%d' % b['ri']
+                if c.get('riid'):
+                    out[nm] = ((frame, c['riid']), 'int')
+                    was_range.append((n, h, nm, None))
+                elif c.get('ivid'):
+                    out.pop(nm, None)
+                    derived[nm] = ((frame, c['ivid']), -1 if at_block == h else 0, 'int')
+                    was_range.append((n, h, nm, derived[nm]))
+                    self.renamed_used.add('%s: loop %d is now a counted loop; rangeindex := %s - 1 at its head' % (
+                        fn['name'].rsplit('/', 1)[-1], n + 1, c['iv']))
+                else:
+                    out.pop(nm, None)
+            elif b.get('iv') and c.get('riid') and c.get('key') == b['iv']:
+                v = b['iv']
+                if at_block == h:
+                    derived[v] = ((frame, c['riid']), 1, 'int')
+                elif not inside and at_block is not None and cfg.dominates(h, at_block):
+                    derived[v] = ((frame, c['riid']), 0, 'int')
+                self.renamed_used.add('%s: loop %d is now a range loop; %s := hidden counter + 1 at its head' % (
+                    fn['name'].rsplit('/', 1)[-1], n + 1, v))
+        # the unqualified name: the innermost enclosing loop that was a range loop, else the last one before this point
+        if was_range and at_block is not None:
+            enc = [x for x in was_range if at_block in cfg.loops[x[1]]]
+            pick = None
+            if enc:
+                pick = min(enc, key=lambda x: len(cfg.loops[x[1]]))
+            else:
+                dom = [x for x in was_range if cfg.dominates(x[1], at_block)]
+                if dom:
+                    pick = dom[-1]
+            if pick is not None:
+                if pick[3] is not None:
+                    out.pop('rangeindex', None)
+                    derived['rangeindex'] = pick[3]
+                else:
+                    out['rangeindex'] = out[pick[2]]
+        if derived:
+            out['#derived'] = derived
 
     def make_env(self, ctx, state, header=None):
         names = dict(self.base_names)
@@ -840,12 +912,17 @@ class FuncRun(ExprMixin, InstrMixin, CallMixin):
                 assumed.append(self.eval_bool(c.parse(), env1))
             except Unsupported:
                 pass
-        for (txt, mk) in auto:
+        accepted = []
+        for cand in auto:
+            txt, mk = cand[0], cand[1]
+            if len(cand) > 2 and not cand[2](env0, env1):
+                continue
             ok, t0 = self.try_auto(mk, env0)
             if not ok:
                 continue
             ok, t1 = self.try_auto(mk, env1)
             if ok:
+                accepted.append((txt, mk))
                 # auto invariants are checked like written ones
                 self.oblige('inv-init', t0, st, txt, '', slug='L%d-auto-%s' % (n, slugify(txt)), fnname=fnname)
                 assumed.append(t1)
@@ -858,7 +935,7 @@ class FuncRun(ExprMixin, InstrMixin, CallMixin):
                 dec0 = self.eval_int(lspec.decreases.parse(), env1)
             except Unsupported as e:
                 self.elab_fail('loop %d decreases: %s' % (n, e), lspec.decreases)
-        ctx['loopinfo'][header] = {'n': n, 'lspec': lspec, 'auto': auto, 'dec0': dec0, 'fnname': fnname, 'head_state': h,
+        ctx['loopinfo'][header] = {'n': n, 'lspec': lspec, 'auto': accepted, 'dec0': dec0, 'fnname': fnname, 'head_state': h,
                                    'fresh_comps': {nm: (h.heap.get(nm), stable_keys.get(nm, ([], True))[0]) for nm in fresh_comps}}
         if lspec is not None and not self.mute:
             self.cover('loop%d-head' % n, h)
@@ -1013,6 +1090,56 @@ class FuncRun(ExprMixin, InstrMixin, CallMixin):
                     return T.le(v0, env.state.cells[cid])
                 out.append((('%s >= %d' % (d.get('name') or addr, v0[1])) if v0[0] == 'i' else
                             ('%s >= its value at loop entry' % (d.get('name') or addr)), mk2))
+        # counted loops `for ..; v < E; v++` (v a monotone +1 counter found above, E unchanged by the loop): v <= max(E, v at entry)
+        last = blk['instrs'][-1] if blk['instrs'] else None
+        cnd = defs.get(last.get('cond')) if last is not None and last['op'] == 'If' and isinstance(last.get('cond'), str) else None
+        if cnd is not None and cnd['op'] == 'BinOp' and cnd.get('tok') in ('<', '<=') and isinstance(cnd.get('x'), str) and blk['comment'] != 'rangeindex.loop' \
+                and len(blk['succs']) == 2 and blk['succs'][0] in body and blk['succs'][1] not in body:
+            dx = defs.get(cnd['x'])
+            if dx and dx['op'] == 'UnOp' and dx.get('tok') == '*' and isinstance(dx.get('x'), str) and dx['x'] in stores \
+                    and any(m_[0].startswith((defs[dx['x']].get('name') or dx['x']) + ' >= ') for m_ in out):
+                addr = dx['x']
+                one = all(isinstance(defs.get(s_['val'], {}).get('y'), dict) and defs[s_['val']]['y'].get('c') == '1' for s_ in stores[addr])
+                cid = (frame, addr)
+                v0 = st.cells.get(cid)
+                if one and v0 is not None and is_term(v0):
+                    hdr_ids = [i_['id'] for i_ in blk['instrs'] if 'id' in i_]
+
+                    def bound(state, y=cnd['y'], blk=blk, hdr_ids=hdr_ids):
+                        if isinstance(y, dict):
+                            return self.val(ctx, y)
+                        saved = {k_: self.regs.get((frame, k_)) for k_ in hdr_ids}
+                        st2 = state.copy()
+                        self.mute += 1
+                        try:
+                            for i_ in blk['instrs'][:-1]:
+                                if i_['op'] not in ('UnOp', 'BinOp', 'FieldAddr', 'Field', 'Call', 'Convert', 'ChangeType') or \
+                                        (i_['op'] == 'Call' and (i_['call'].get('mode') != 'builtin' or i_['call'].get('callee') not in ('len', 'cap'))):
+                                    raise Unsupported('loop header too complex for a bound candidate')
+                                self.exec_instr(ctx, i_, st2)
+                            e_ = self.regs.get((frame, y))
+                            if e_ is None or not is_term(e_) or T.sort_of(e_) != T.INT:
+                                raise Unsupported('no bound')
+                            return e_
+                        finally:
+                            self.mute -= 1
+                            for k_, v_ in saved.items():
+                                if v_ is None:
+                                    self.regs.pop((frame, k_), None)
+                                else:
+                                    self.regs[(frame, k_)] = v_
+
+                    def guard(env0, env1):
+                        try:
+                            return bound(env0.state) == bound(env1.state)
+                        except (Unsupported, KeyError, TypeError, IndexError):
+                            return False
+
+                    def mk3(env, cid=cid, v0=v0, strict=cnd['tok'] == '<'):
+                        e_ = bound(env.state)
+                        v = env.state.cells[cid]
+                        return T.or_(T.le(v, e_ if strict else T.add(e_, T.ONE)), T.le(v, v0))
+                    out.append(('%s <= max(loop bound%s, its value at loop entry)' % (defs[addr].get('name') or addr, '' if cnd['tok'] == '<' else ' + 1'), mk3, guard))
         return out
 
     def inline_name(self, ctx):
